@@ -102,7 +102,9 @@ impl<Tag: Default> oxidd_dump::ParseTagged<Tag> for F64 {
             | "+infinity" | "+Inf" | "+Infinity" | "+INF" | "+INFINITY" | "PlusInf" => {
                 Self(f64::INFINITY)
             }
-            _ => Self(f64::from_str(s).ok()?),
+            // `f64::from_str()` also accepts, e.g., "-0.0" and "-nan", so we
+            // need to normalize the value
+            _ => Self::from(f64::from_str(s).ok()?),
         };
         Some((val, Tag::default()))
     }
